@@ -118,6 +118,13 @@ def table(kind):
         put("f-1.5", L, None, None)
         put("b-true", L, None, None)
         put("list", L, None, None)
+    elif kind.startswith("union_"):
+        for k in ("s-plain", "s-num", "s-float", "s-true", "s-date", "s-empty", "s-2p53+1"):
+            put(k, V, VALUES[k])                  # a string is a valid instance of the string member: the default is that string
+        other = {"union_str_int": ("i-5", "i-0"), "union_typelist_str_num": ("f-1.5", "i-5"), "union_str_bool": ("b-true", "b-false"), "union_str_date": ()}[kind]
+        for k in other:
+            put(k, V, VALUES[k])
+        put("list", L, None, None)
     elif kind == "any":
         for k in ("s-plain", "i-5", "f-1.5", "b-true", "b-false", "list", "obj", "i-0", "s-empty", "s-dquote", "i-2p53+1", "i-int64max",
                   "obj-bool-null", "list-bool-null", "obj-nested"):
@@ -126,7 +133,9 @@ def table(kind):
 
 
 KINDS = ["str", "int", "num", "bool", "date", "datetime", "uuid", "enum_str", "enum_int", "const", "union", "any", "enum_ref",
-         "enum_str_null", "enum_int_null", "enum_str_oneofnull"]
+         "enum_str_null", "enum_int_null", "enum_str_oneofnull",
+         # unions whose plain string member is declared BEFORE a typed member: a string default stays the string it is
+         "union_str_int", "union_typelist_str_num", "union_str_bool", "union_str_date"]
 ENUM_VALUES = {"enum_str": ["a", "b"], "enum_ref": ["a", "b"], "enum_int": [1, -2]}
 
 
@@ -139,6 +148,14 @@ def _schema(kind, comps):
         return {"oneOf": [{"type": "string", "enum": ["a", "b"]}, {"type": "null"}]}
     if kind == "union":
         return {"oneOf": [{"type": "integer"}, {"type": "string"}]}
+    if kind == "union_str_int":
+        return {"oneOf": [{"type": "string"}, {"type": "integer"}]}
+    if kind == "union_typelist_str_num":
+        return {"type": ["string", "number"]}
+    if kind == "union_str_bool":
+        return {"anyOf": [{"type": "string"}, {"type": "boolean"}]}
+    if kind == "union_str_date":
+        return {"oneOf": [{"type": "string"}, {"type": "string", "format": "date"}]}
     if kind == "enum_ref":
         comps.setdefault("EnumRef", {"type": "string", "enum": ["a", "b"]})
         return {"$ref": "#/components/schemas/EnumRef"}
@@ -207,6 +224,7 @@ def _doc(kind, value, route, pos, lit, req="opt"):
 
 
 PARAM_KINDS = {"str", "int", "num", "bool", "date", "datetime", "uuid", "enum_str", "enum_int", "enum_ref", "union", "any", "const",
+               "union_str_int", "union_typelist_str_num", "union_str_bool", "union_str_date",
                "enum_str_null", "enum_int_null", "enum_str_oneofnull"}
 
 
@@ -220,9 +238,11 @@ def cases(tier):
                         continue
                     if route in ("ref-wrapper", "nullable30-wrapper") and kind in ("union", "any", "const", "enum_str_oneofnull", "enum_str_null", "enum_int_null"):
                         continue
+                    if kind.startswith("union_") and route in ("nullable30-wrapper", "allof-override", "allof-inherit"):
+                        continue
                     if route == "second-use-of-enum-class" and (kind not in ("enum_str", "enum_int") or pos != "model"):
                         continue
-                    if route.startswith("allof-redescribed") and (kind in ("union", "any", "const") or kind.endswith("null") or t[label][0] != V):
+                    if route.startswith("allof-redescribed") and (kind in ("union", "any", "const") or kind.startswith("union_") or kind.endswith("null") or t[label][0] != V):
                         continue
                     for lit in ((False, True) if kind.startswith("enum") else (False,)):
                         if _doc(kind, VALUES[label], route, pos, lit) is None:
